@@ -198,7 +198,7 @@ def histories(draw, mode, max_steps=5, max_dims=4, max_len=3):
         else:
             sel = draw(selectors(U, tl, allow_list=allow_list))
             tuple_ok = sel and all(v["kind"] in ("single", "list") and (v["kind"] == "single" or len(v["items"]) >= 2) for v in sel.values())
-            syntax = draw(st.sampled_from(["dict_letter", "dict_name", "dict_mixed"] + (["ellipsis"] if not sel else []) + (["tuple", "tuple_mixed", "tuple_mixed"] if tuple_ok else [])))
+            syntax = draw(st.sampled_from(["dict_letter", "dict_name", "dict_mixed"] + (["ellipsis"] if not sel else []) + (["tuple", "tuple_mixed", "tuple_mixed"] if tuple_ok else []) + (["bare", "bare"] if len(sel) == 1 and all(v["kind"] == "single" for v in sel.values()) else [])))
         rl, ritems, orig = region(U, tl, sel)
         rhs = {"kind": kind}
         if kind == "array_other_len":
